@@ -38,7 +38,7 @@ CLAIMS = {
          "Tie: E-seq with seven constructor routes + lying data at random points of random histories; judged on the real crate. The byte-level codecs the routes pass through are C16/C17.",
          "Lean 4 proof (permutation/sum lemmas over constructors) + differential correspondence with judge", "DESIGN §6 C10"),
  "C11": ("The full property is false of the crate (known finding, Lean counterexample evaluated on the model and replayed on the crate). Proved: C11_partial — the restored level hands out its orders exactly in snapshot (timestamp) order, so it reproduces the original's order iff the original's hand-out order equals its listing. "
-         "Lifted to continuations (C11_matches, by a lockstep simulation of the two match loops): whenever the original's hand-out order equals its listing and ids are unique, ANY sequence of later matches yields the same transactions, remaining quantities, filled lists and final order sets on both levels (statistics aside, which a snapshot does not carry). Tie: E-seq with a forked real level restored from the snapshot and fed the same continuation; differences classified by the driver.",
+         "Lifted to continuations (C11_matches, by a lockstep simulation of the two match loops): whenever the original's hand-out order equals its listing and ids are unique, ANY sequence of later matches yields the same transactions, remaining quantities, filled lists and final order sets on both levels (statistics aside, which a snapshot does not carry); and (C11_continuations) the same for ANY continuation of adds, cancels, amends, price moves, replaces and matches that does not re-add an id whose stale ticket the original still queues. Tie: E-seq with a forked real level restored from the snapshot and fed the same continuation; differences classified by the driver.",
          "Lean 4 proof (partial) + counterexample by evaluation + differential correspondence on two real levels; known finding", "DESIGN §6 C11"),
  "C03": ("Theorems over the Lean small-step model for EVERY schedule, any number of threads/ops: the inductive invariant CInv (each 64-bit counter = sum over the map + every thread's credit, modulo 2^64; every order id in exactly one place), the supply potential never grows (BInv), hence at every point the stored counters are the exact un-wrapped quantities and at quiescence the aggregates equal the sums over the resting orders (C03_quiescent); and the per-order ledger (C03_ledger, C03_ledger_prefix): for every order id, at every point of every schedule, resting + held by threads + executed + handed back by cancels + discarded hidden (+ amended down) = initial + supplied by adds (+ amended up), with nothing held at quiescence — no unit executed twice, handed to two cancellers, or lost. "
          "Events of the ledger are counted where they happen in the model; on real executions the same ledger is judged from return values (C03.idOk). Tie: real threads under a deterministic scheduler, event traces compared step by step with the model.",
